@@ -165,14 +165,21 @@ def _rand_case(rng):
         pts.append([px + dx, py + dy, pz + dz])
     base = rng.choice([BASE_1970, BASE_2021]) + rng.randrange(0, 5000)
     ms = [base]
+    calendar = n <= 12 and rng.random() < 0.1
     for i in range(1, n):
         if style == "same_time":
             dt = 0
+        elif calendar:
+            # sparse sampling on calendar steps (a marker surveyed daily, weekly, monthly, yearly): consecutive fixes
+            # share their time of day, often their day of the month or their day and month
+            dt = 86400000 * rng.choice([1, 7, 28, 29, 30, 31, 31, 30, 365, 366]) + rng.choice([0, 0, 0, 1000, -3600000, 45000])
         else:
             dt = rng.choice([0, 0, 1, 10, 1000, 1000, 60000, 3600000, rng.randrange(1, 100000), 999, 1001])
         ms.append(ms[-1] + dt)
     order = rng.choice(["abs_curv_first", "speed_first"])
     c = {"kind": "track", "pts": pts, "ms": ms, "order": order}
+    if calendar:
+        c["calendar_steps"] = 1
     if rng.random() < 0.2:
         # the calendar fields of the timestamps held as numpy integers (taken out of an array); coordinates of the
         # lattice style held as Python ints
@@ -335,6 +342,11 @@ def run_case(case, ctx):
     tr = gen.make_track([tuple(p) for p in pts], ms)
     if n >= 1000:
         cls.append("track_of_1000+_fixes")
+    if case.get("calendar_steps"):
+        cls.append("sparse_sampling_on_calendar_steps")
+        F = [gen.fields_from_ms(m) for m in ms]
+        if any(F[i][2] == F[i + 1][2] and F[i][:2] != F[i + 1][:2] for i in range(n - 1)):
+            cls.append("consecutive_fixes_on_the_same_day_of_different_months")
     if case.get("numpy_time_fields"):
         import numpy as np
         from tracklib.core.obs_time import ObsTime
@@ -548,7 +560,8 @@ def classify(case, witness):
 # floors for the call-history workloads added in session 3 (a run in which they were silently skipped is inconclusive)
 _floors_base = floors
 _FLOORS_EXTRA = {'monitors': {'abs_curv_after_trimming': 1000},
-                 'classes': {'track_of_1000+_fixes': 20, 'two_tracks_in_turn': 1000, 'timestamps_edited_in_place': 500, 'timestamp_fields_held_as_numpy_ints': 500}}
+                 'classes': {'track_of_1000+_fixes': 20, 'two_tracks_in_turn': 1000, 'timestamps_edited_in_place': 500, 'timestamp_fields_held_as_numpy_ints': 500,
+                             'consecutive_fixes_on_the_same_day_of_different_months': 150}}
 
 
 def floors(tier):
